@@ -1,6 +1,6 @@
 //@ unit flarm
 //@ engine kani
-//@ opt harness_timeout 500
+//@ opt harness_timeout 6000
 // C15 — FLARM (crates/rs1090/src/decode/flarm.rs), verbatim: key schedule (obscure, make_key), XXTEA
 // decryption (mx, fixk, btea, Flarm::decode_btea), position reconstruction (decode_latitude /
 // decode_longitude), decode_actype, decode_groundspeed, decode_track and the map closures of the record.
